@@ -57,6 +57,7 @@ type mStmt struct {
 	dc     *mDC
 	si     driver.Stmt
 	tx     *mTx
+	owner  *mConn // prepared on a pinned Conn
 	closed bool
 }
 
@@ -75,18 +76,18 @@ type mRow struct {
 }
 
 // engine intrinsics (bodies are never executed)
-func wrapDB(m *mDB) *sql.DB          { panic("engine intrinsic") }
-func unwrapDB(p *sql.DB) *mDB        { panic("engine intrinsic") }
-func wrapConn(m *mConn) *sql.Conn    { panic("engine intrinsic") }
-func unwrapConn(p *sql.Conn) *mConn  { panic("engine intrinsic") }
-func wrapTx(m *mTx) *sql.Tx          { panic("engine intrinsic") }
-func unwrapTx(p *sql.Tx) *mTx        { panic("engine intrinsic") }
-func wrapStmt(m *mStmt) *sql.Stmt    { panic("engine intrinsic") }
-func unwrapStmt(p *sql.Stmt) *mStmt  { panic("engine intrinsic") }
-func wrapRows(m *mRows) *sql.Rows    { panic("engine intrinsic") }
-func unwrapRows(p *sql.Rows) *mRows  { panic("engine intrinsic") }
-func wrapRow(m *mRow) *sql.Row       { panic("engine intrinsic") }
-func unwrapRow(p *sql.Row) *mRow     { panic("engine intrinsic") }
+func wrapDB(m *mDB) *sql.DB         { panic("engine intrinsic") }
+func unwrapDB(p *sql.DB) *mDB       { panic("engine intrinsic") }
+func wrapConn(m *mConn) *sql.Conn   { panic("engine intrinsic") }
+func unwrapConn(p *sql.Conn) *mConn { panic("engine intrinsic") }
+func wrapTx(m *mTx) *sql.Tx         { panic("engine intrinsic") }
+func unwrapTx(p *sql.Tx) *mTx       { panic("engine intrinsic") }
+func wrapStmt(m *mStmt) *sql.Stmt   { panic("engine intrinsic") }
+func unwrapStmt(p *sql.Stmt) *mStmt { panic("engine intrinsic") }
+func wrapRows(m *mRows) *sql.Rows   { panic("engine intrinsic") }
+func unwrapRows(p *sql.Rows) *mRows { panic("engine intrinsic") }
+func wrapRow(m *mRow) *sql.Row      { panic("engine intrinsic") }
+func unwrapRow(p *sql.Row) *mRow    { panic("engine intrinsic") }
 
 // convertArg maps a Go argument to a driver.Value the way
 // driver.DefaultParameterConverter does (basic kinds by reflection, Valuer).
@@ -387,9 +388,9 @@ func SQL_DB_PingContext(p *sql.DB, ctx context.Context) error {
 
 func SQL_DB_Ping(p *sql.DB) error { return SQL_DB_PingContext(p, context.Background()) }
 
-func SQL_DB_SetMaxOpenConns(p *sql.DB, n int)            {}
-func SQL_DB_SetMaxIdleConns(p *sql.DB, n int)            {}
-func SQL_DB_Driver(p *sql.DB) driver.Driver              { return unwrapDB(p).connector.Driver() }
+func SQL_DB_SetMaxOpenConns(p *sql.DB, n int) {}
+func SQL_DB_SetMaxIdleConns(p *sql.DB, n int) {}
+func SQL_DB_Driver(p *sql.DB) driver.Driver   { return unwrapDB(p).connector.Driver() }
 func SQL_DB_Stats(p *sql.DB) sql.DBStats {
 	db := unwrapDB(p)
 	inUse := db.numOpen - len(db.free)
@@ -405,6 +406,14 @@ func (c *mConn) grab() (*mDC, error) {
 	return c.dc, nil
 }
 
+// after mirrors Conn.closemuRUnlockCondReleaseConn: a driver.ErrBadConn closes the pinned connection.
+func (c *mConn) after(err error) {
+	if err != nil && errors.Is(err, driver.ErrBadConn) && !c.done {
+		c.done = true
+		c.dc.release(err)
+	}
+}
+
 func SQL_Conn_BeginTx(p *sql.Conn, ctx context.Context, opts *sql.TxOptions) (*sql.Tx, error) {
 	c := unwrapConn(p)
 	dc, err := c.grab()
@@ -413,25 +422,32 @@ func SQL_Conn_BeginTx(p *sql.Conn, ctx context.Context, opts *sql.TxOptions) (*s
 	}
 	txi, err := dcBegin(ctx, dc, opts)
 	if err != nil {
+		c.after(err)
 		return nil, err
 	}
 	return wrapTx(&mTx{db: c.db, dc: dc, txi: txi, owner: c}), nil
 }
 
 func SQL_Conn_ExecContext(p *sql.Conn, ctx context.Context, query string, args ...interface{}) (sql.Result, error) {
-	dc, err := unwrapConn(p).grab()
+	c := unwrapConn(p)
+	dc, err := c.grab()
 	if err != nil {
 		return nil, err
 	}
-	return dcExec(ctx, dc, query, args)
+	r, err := dcExec(ctx, dc, query, args)
+	c.after(err)
+	return r, err
 }
 
 func SQL_Conn_QueryContext(p *sql.Conn, ctx context.Context, query string, args ...interface{}) (*sql.Rows, error) {
-	dc, err := unwrapConn(p).grab()
+	c := unwrapConn(p)
+	dc, err := c.grab()
 	if err != nil {
 		return nil, err
 	}
-	return dcQuery(ctx, dc, func() {}, query, args)
+	r, err := dcQuery(ctx, dc, func() {}, query, args)
+	c.after(err)
+	return r, err
 }
 
 func SQL_Conn_QueryRowContext(p *sql.Conn, ctx context.Context, query string, args ...interface{}) *sql.Row {
@@ -450,9 +466,10 @@ func SQL_Conn_PrepareContext(p *sql.Conn, ctx context.Context, query string) (*s
 	}
 	si, err := dcPrepare(ctx, dc, query)
 	if err != nil {
+		c.after(err)
 		return nil, err
 	}
-	return wrapStmt(&mStmt{db: c.db, query: query, dc: dc, si: si, tx: &mTx{}}), nil
+	return wrapStmt(&mStmt{db: c.db, query: query, dc: dc, si: si, tx: &mTx{}, owner: c}), nil
 }
 
 func SQL_Conn_Close(p *sql.Conn) error {
@@ -585,6 +602,9 @@ func (s *mStmt) check() error {
 	if s.tx != nil && s.tx.txi != nil && s.tx.done {
 		return sql.ErrTxDone
 	}
+	if s.owner != nil && s.owner.done {
+		return sql.ErrConnDone
+	}
 	return nil
 }
 
@@ -599,6 +619,9 @@ func SQL_Stmt_ExecContext(p *sql.Stmt, ctx context.Context, args ...interface{})
 	}
 	r, err := stmtExec(ctx, s.si, nv)
 	if err != nil {
+		if s.owner != nil {
+			s.owner.after(err)
+		}
 		return nil, err
 	}
 	return r, nil
@@ -619,6 +642,9 @@ func SQL_Stmt_QueryContext(p *sql.Stmt, ctx context.Context, args ...interface{}
 	}
 	ri, err := stmtQuery(ctx, s.si, nv)
 	if err != nil {
+		if s.owner != nil {
+			s.owner.after(err)
+		}
 		return nil, err
 	}
 	return wrapRows(&mRows{dc: s.dc, release: func() {}, rowsi: ri}), nil
